@@ -447,21 +447,36 @@ def nzs_rules(chk):
     import copy
     te = P.fn(DS + "t_eff")
     per_cls = {}
-    for n in ast.walk(te.node):
-        if isinstance(n, ast.If) and isinstance(n.test, ast.Compare) and isinstance(n.test.left, ast.Name) and n.test.left.id == "site_class" and \
-                isinstance(n.test.comparators[0], ast.Constant) and isinstance(n.test.ops[0], ast.Eq):
-            node = n
-            while True:
-                cls = node.test.comparators[0].value
-                asg = {x.targets[0].id: x.value for x in node.body if isinstance(x, ast.Assign) and isinstance(x.targets[0], ast.Name)}
-                if "t_c" in asg and "d_c" in asg:
-                    per_cls[cls] = (asg["t_c"], asg["d_c"], node)
-                if len(node.orelse) == 1 and isinstance(node.orelse[0], ast.If) and isinstance(node.orelse[0].test, ast.Compare) and \
-                        isinstance(node.orelse[0].test.comparators[0], ast.Constant):
-                    node = node.orelse[0]
+    # the function is specialised to each site class its if/elif chain names: the branch of that class is followed, assignments are
+    # substituted in order, and t_c / d_c are read at the end -- wherever they are assigned (in the branch, before or after the chain)
+    classes = sorted({n.test.comparators[0].value for n in ast.walk(te.node) if isinstance(n, ast.If) and isinstance(n.test, ast.Compare) and
+                      isinstance(n.test.left, ast.Name) and n.test.left.id == "site_class" and len(n.test.ops) == 1 and
+                      isinstance(n.test.ops[0], ast.Eq) and isinstance(n.test.comparators[0], ast.Constant)}, key=repr)
+
+    def specialise(stmts, cls, env, anchor, inchain=False, dep=None):
+        dep = dep if dep is not None else set()          # names whose value depends on the class (assigned inside the chain)
+        for st in stmts:
+            if isinstance(st, ast.If) and isinstance(st.test, ast.Compare) and isinstance(st.test.left, ast.Name) and st.test.left.id == "site_class" \
+                    and len(st.test.ops) == 1 and isinstance(st.test.ops[0], ast.Eq) and isinstance(st.test.comparators[0], ast.Constant):
+                if st.test.comparators[0].value == cls:
+                    anchor[0] = st
+                    specialise(st.body, cls, env, anchor, True, dep)
                 else:
-                    break
-            break
+                    specialise(st.orelse, cls, env, anchor, inchain, dep)
+            elif isinstance(st, ast.Assign) and len(st.targets) == 1 and isinstance(st.targets[0], ast.Name):
+                class Sub(ast.NodeTransformer):
+                    def visit_Name(self, n_):
+                        if isinstance(n_.ctx, ast.Load) and n_.id in env and n_.id in dep and n_.id not in te.params:
+                            return copy.deepcopy(env[n_.id])
+                        return n_
+                if inchain:
+                    dep.add(st.targets[0].id)
+                env[st.targets[0].id] = Sub().visit(copy.deepcopy(st.value))
+    for cls in classes:
+        env_, anchor = {}, [te.node]
+        specialise(te.node.body, cls, env_, anchor)
+        if "t_c" in env_ and "d_c" in env_:
+            per_cls[cls] = (env_["t_c"], env_["d_c"], anchor[0])
     if not per_cls:
         once = {}
         for n in ast.walk(te.node):
